@@ -284,7 +284,11 @@ pub fn run_history(run: &Run<'_>, st: Option<&mut Stats>) -> Result<(), (String,
                                 }
                             }
                             let (a, b, c, d) = (&s[..idx[0]], &s[idx[0]..idx[1]], &s[idx[1]..idx[2]], &s[idx[2]..]);
-                            write!(stream.w(), "{}{}{b}{}{}", Frag(a), "", Frag(c), Frag(d), b = Frag(b))
+                            // the last character travels as a `char` argument (it reaches the stream through write_char)
+                            match d.chars().last() {
+                                Some(last) => write!(stream.w(), "{}{}{b}{}{}{last}", Frag(a), "", Frag(c), Frag(&d[..d.len() - last.len_utf8()]), b = Frag(b)),
+                                None => write!(stream.w(), "{}{}{b}{}{}", Frag(a), "", Frag(c), Frag(d), b = Frag(b)),
+                            }
                         }
                         Err(_) => stream.w().write_all(chunk),
                     }
